@@ -86,6 +86,8 @@ def run(text, cfg, k):
             E.count()
         except KeyboardInterrupt:
             outcome = 'interrupted'
+        except Exception as e:     # pylint: disable=broad-except
+            outcome = 'raised %s: %s' % (type(e).__name__, e)
         finally:
             sys.settrace(None)
     finally:
@@ -228,6 +230,9 @@ class C19(Check):
             E, inj, outcome = run(text, cfg, k)
             if not inj.fired:
                 acc.violation('C19|%s|point-not-reached' % rule, 'the count has fewer line events than when it was measured: %s' % where, one)
+                continue
+            if outcome.startswith('raised'):
+                acc.violation('C19|%s|count-%s' % (rule, outcome.split(':')[0].replace(' ', '-')), 'the interrupted count ended with another exception (%s): %s' % (outcome, where), one)
                 continue
             if outcome != 'interrupted':
                 acc.violation('C19|%s|interrupt-swallowed' % rule, 'KeyboardInterrupt did not terminate count(): %s' % where, one)
